@@ -374,8 +374,25 @@ def r17_7(ctx):
     ctx.check(cs == {("lit", " ")}, f.fq, rx.args[0].value, f"{m.relpath}:{rx.lineno}", "indentation = ASCII spaces only", f"the indentation group of `{rx.args[0].value}` matches {cs}: characters other than ASCII spaces would be replaced by guides")
     src = norm(f.node)
     ok = "full_indents, remaining_space = divmod(len(indent), _indent_size)" in src and "new_indent = f\"{indent_line * full_indents}{' ' * remaining_space}\"" in src.replace("'", "'") or "line.plain = new_indent + line.plain[len(new_indent):]" in src
-    ctx.shape("line.plain = new_indent + line.plain[len(new_indent):]" in src and "divmod(len(indent), _indent_size)" in src, f.fq, "line.plain = new_indent + line.plain[len(new_indent):]", f.where,
-              "exactly the leading len(new_indent) characters are replaced", "the guides do not replace exactly the indentation prefix")
+    from ..astutil import inline as _inl177, single_defs as _sdf177
+    sd177 = _sdf177(f.node)
+    stores = [x for x in walk_local(f.node) if isinstance(x, ast.Assign) and len(x.targets) == 1 and isinstance(x.targets[0], ast.Attribute) and x.targets[0].attr == "plain"]
+    okst = False
+    for x in stores:
+        v = x.value
+        old_ = norm(x.targets[0])
+        if isinstance(v, ast.BinOp) and isinstance(v.op, ast.Add) and isinstance(v.right, ast.Subscript) and norm(v.right.value) == old_ and isinstance(v.right.slice, ast.Slice) and v.right.slice.upper is None and v.right.slice.lower is not None:
+            lo_ = norm(_inl177(v.right.slice.lower, {k_: v_ for k_, v_ in sd177.items() if k_ != norm(v.left)}))
+            if lo_ == f"len({norm(v.left)})":
+                okst = True
+            else:
+                ctx.violation(f.fq, short(x), f"{m.relpath}:{x.lineno}", f"`{short(x)}` replaces `{lo_}` leading characters by a prefix of another length: characters of the code are dropped or duplicated")
+                okst = None
+    if okst is False:
+        raise AnalysisError("Text.with_indent_guides: the store `line.plain = <guides> + line.plain[len(<guides>):]` was not found; written differently, this clause is not decided")
+    if okst:
+        ctx.ok(f.where, "exactly the leading len(new_indent) characters are replaced", f.fq)
+    ctx.shape("divmod(len(indent), _indent_size)" in src, f.fq, "divmod(len(indent), _indent_size)", f.where, "the guide prefix is as long as the indentation", "the guide prefix is not built from divmod(len(indent), indent_size)")
     ctx.shape("indent_line = f\"{character}{' ' * (_indent_size - 1)}\"" in src or "indent_line" in src, f.fq, "indent_line", f.where, "one guide character plus spaces per indent level", "indent_line is no longer one guide character plus spaces")
 
 
